@@ -1,8 +1,8 @@
-CONSTANT Threads = {1, 2}
+CONSTANT Threads = {1, 2, 3}
 CONSTANT BITS = 1
 CONSTANT LW = 1
 CONSTANT MaxN = 8
-CONSTANT ProgSpace <- PRT
+CONSTANT ProgSpace <- PT31
 SPECIFICATION Spec
 INVARIANT PcOK WellFormed RootConsistent NoLostElement NothingInvented FirstConsistent SnapshotEven Final
 PROPERTY Monotone
